@@ -21,7 +21,7 @@ const ruleC03 = "generated histories over 2-3 logs with every refusal class incl
 
 var profC03 = vlib.Profile{
 	Prop: "C03", MinLogs: 2, MaxLogs: 3, MinOps: 4, MaxOps: 30,
-	Storages: []string{"mem", "sql"}, MaxJump: 512, OtherLogPct: 35, Decorate: 10, SharedKeys: true, FaultPct: 16, MixOldPct: 8, DrvFaults: true, CancelPct: 25,
+	Storages: []string{"mem", "sql"}, MaxJump: 512, OtherLogPct: 35, Decorate: 10, SharedKeys: true, FaultPct: 16, MixOldPct: 8, DrvFaults: true, CancelPct: 25, DeadCtxPct: 6,
 	Weights: map[string]int{"grow": 22, "refresh": 6, "fork": 12, "wrongold": 10, "badproof": 12, "replay": 4, "garbage": 6, "unkroot": 3, "oddroot": 1, "wrongkey": 6, "wrongorigin": 4, "unknownlog": 4, "smaller": 5, "decorated": 3, "zero": 2, "mismatch": 6},
 }
 
@@ -131,11 +131,11 @@ func TestC03(t *testing.T) {
 // ---------------------------------------------------------------------------------
 // C20 — counters
 
-const ruleC20 = "generated mixed-verdict histories over 2-3 logs; per request the delta of every witness_update_* counter/label is compared with the observed verdict; non-trivial = history with >=1 root-mismatch or invalid-proof refusal and >=1 accept; distinct by case hash"
+const ruleC20 = "generated mixed-verdict histories over 2-3 logs (8% of the requests arrive with a context that has already been cancelled or has expired - still update requests); per request the delta of every witness_update_* counter/label is compared with the observed verdict; non-trivial = history with >=1 root-mismatch or invalid-proof refusal and >=1 accept; distinct by case hash"
 
 var profC20 = vlib.Profile{
 	Prop: "C20", MinLogs: 2, MaxLogs: 3, MinOps: 4, MaxOps: 30,
-	Storages: []string{"mem", "sql"}, MaxJump: 512, OtherLogPct: 35, Decorate: 5, SharedKeys: true, FaultPct: 10, MixOldPct: 8,
+	Storages: []string{"mem", "sql"}, MaxJump: 512, OtherLogPct: 35, Decorate: 5, SharedKeys: true, FaultPct: 10, MixOldPct: 8, DeadCtxPct: 8,
 	Weights: map[string]int{"grow": 25, "refresh": 8, "fork": 16, "wrongold": 8, "badproof": 14, "replay": 3, "garbage": 4, "unkroot": 3, "wrongkey": 4, "wrongorigin": 3, "unknownlog": 4, "smaller": 4, "decorated": 2, "zero": 3, "mismatch": 8},
 }
 
@@ -200,6 +200,11 @@ func runC20(c *vlib.HistCase) (bool, []string, error) {
 		}
 		return nil
 	}})
+	for _, op := range c.Ops {
+		if op.DeadCtx != "" {
+			classes = append(classes, "request-with-ended-context:"+op.DeadCtx)
+		}
+	}
 	return sawAlarm && sawAccept, classes, err
 }
 
